@@ -107,6 +107,18 @@ fn eval_lib(_ctx: &Ctx, case: &LibCase) -> Verdict {
             spec.shape
         );
     }
+    // the same spectrum at genome scale with fractional entries (totals of 1e9 .. 1e13, where sums
+    // taken in different orders differ in their last bits): still the naive sum, to relative 1e-12
+    if spec.values.iter().all(|v| v.is_finite()) && scale > 0.0 && scale < 1e6 {
+        let c = 1.234_567_891e7;
+        let big = Spec::new(spec.shape.clone(), spec.values.iter().map(|v| v * c + if *v != 0.0 { 0.37 } else { 0.0 }).collect());
+        let want_big = big.marginalize(remove);
+        let big_scale: f64 = big.values.iter().map(|v| v.abs()).sum();
+        match lib_marginalize(&big, remove)? {
+            Ok(got_big) => ensure!(same(&got_big, &want_big, false, big_scale), "marginalize({remove:?}) of the spectrum scaled to a total of {big_scale:e}: {:?}, naive sum {:?}", got_big.values.iter().take(6).collect::<Vec<_>>(), want_big.values.iter().take(6).collect::<Vec<_>>()),
+            Err(e) => fail!("marginalize({remove:?}) failed on the spectrum scaled to a total of {big_scale:e}: {e}"),
+        }
+    }
     // the frequency type-state: the marginal of the normalised spectrum is the naive sum over the
     // normalised values
     if spec.values.iter().all(|v| v.is_finite() && *v >= 0.0) && spec.sum() > 0.0 {
